@@ -667,8 +667,8 @@ class LinkLayer(Layer):
         if encryption_key is not None and conn_handle is not None:
 
             # Generate our SKD and IV
-            skd = randint(0, 0x10000000000000000)
-            iv = randint(0, 0x100000000)
+            skd = randint(0, 0xFFFFFFFFFFFFFFFF)
+            iv = randint(0, 0xFFFFFFFF)
             self.state.register_skd_and_iv(conn_handle, skd, iv)
 
             logger.info('[llm] Initiate connection LinkLayerCryptoManager')
@@ -776,8 +776,8 @@ class LinkLayer(Layer):
         if encryption_key is not None and conn_handle is not None:
 
             # Generate our SKD and IV
-            skd = randint(0, 0x10000000000000000)
-            iv = randint(0, 0x100000000)
+            skd = randint(0, 0xFFFFFFFFFFFFFFFF)
+            iv = randint(0, 0xFFFFFFFF)
             self.state.register_skd_and_iv(conn_handle, skd, iv)
 
             logger.info(
